@@ -5,7 +5,7 @@ bool IN_sw, IN_xr;
 static FlexPath c10_fp;
 static FlexPathElement c10_els[2];   /* static, typed objects: cheap to dereference for CBMC */
 static Vec2 c10_spine[2], c10_w0[2], c10_w1[2];
-void h_fpath_transform(void) {
+static void c10_fp_state(void) {
     VF_IN(u64, IN_n); VF_IN(u64, IN_ne); VF_IN(u64, IN_gk); VF_IN(u64, IN_gk2); VF_IN(bool, IN_sw);
     VF_IN_ARR(IN_sp); VF_IN_ARR(IN_wo);
     VF_ASSUME(IN_n <= 2 && IN_ne <= 2);
@@ -29,9 +29,34 @@ void h_fpath_transform(void) {
     w1[0].x = IN_wo[4]; w1[0].y = IN_wo[5]; w1[1].x = IN_wo[6]; w1[1].y = IN_wo[7];
     c10_fp.elements[0].half_width_and_offset.items = w0; c10_fp.elements[0].half_width_and_offset.count = IN_n; c10_fp.elements[0].half_width_and_offset.capacity = 2;
     c10_fp.elements[1].half_width_and_offset.items = w1; c10_fp.elements[1].half_width_and_offset.count = IN_n; c10_fp.elements[1].half_width_and_offset.capacity = 2;
+}
+#ifdef VF_ENTRY_h_fpath_transform
+void h_fpath_transform(void) {
+    c10_fp_state();
     FlexPath *this_ = &c10_fp;
     double magnification, rotation; bool x_reflection; Vec2 origin;
     VF_IN(double, IN_a); VF_IN(double, IN_b); VF_IN(double, IN_c); VF_IN(double, IN_d); VF_IN(bool, IN_xr);
     magnification = IN_a; rotation = IN_b; origin.x = IN_c; origin.y = IN_d; x_reflection = IN_xr;
     VF_CALL_V(FlexPath__transform, this_, magnification, x_reflection, rotation, origin);
 }
+#endif
+#ifdef VF_ENTRY_h_fpath_scale
+void h_fpath_scale(void) {
+    c10_fp_state();
+    FlexPath *this_ = &c10_fp;
+    double scael_factor; Vec2 center;
+    VF_IN(double, IN_a); VF_IN(double, IN_b); VF_IN(double, IN_c);
+    scael_factor = IN_a; center.x = IN_b; center.y = IN_c;
+    VF_CALL_V(FlexPath__scale, this_, scael_factor, center);
+}
+#endif
+#ifdef VF_ENTRY_h_fpath_mirror
+void h_fpath_mirror(void) {
+    c10_fp_state();
+    FlexPath *this_ = &c10_fp;
+    Vec2 p0, p1;
+    VF_IN(double, IN_a); VF_IN(double, IN_b); VF_IN(double, IN_c); VF_IN(double, IN_d);
+    p0.x = IN_a; p0.y = IN_b; p1.x = IN_c; p1.y = IN_d;
+    VF_CALL_V(FlexPath__mirror, this_, p0, p1);
+}
+#endif
